@@ -346,6 +346,10 @@ class BreakNode(Node):
 
     __slots__ = ()
 
+    def __init__(self, token: TokenT) -> None:
+        super().__init__(token)
+        self.blank = True
+
     def __str__(self) -> str:
         assert isinstance(self.token, TagToken)
         return f"{{%{self.token.wc[0]} break {self.token.wc[1]}%}}"
@@ -357,6 +361,10 @@ class BreakNode(Node):
 
 class ContinueNode(Node):
     """Parse tree node for the standard _continue_ tag."""
+
+    def __init__(self, token: TokenT) -> None:
+        super().__init__(token)
+        self.blank = True
 
     def __str__(self) -> str:
         assert isinstance(self.token, TagToken)
